@@ -93,17 +93,18 @@ def r08_5(facts, res):
         lits = set()
         for _, _, l in feeds:
             lits |= (l or set())
+        direct = tokens.direct_pairs(facts, ex, enum_name)      # value(Enum::Variant, tag("tok"))
         for tok, variant in sorted(table.items()):
             st["instances"] += 1
-            ok = arms.get(tok) == variant and tok in lits
+            ok = direct.get(tok) == variant if tok in direct else (arms.get(tok) == variant and tok in lits)
             res.oblige(1, ok)
             if not ok:
-                why = "is mapped to %s" % arms.get(tok) if tok in arms else "has no arm"
-                if tok not in lits:
+                why = "is paired with %s" % direct[tok] if tok in direct else ("is mapped to %s" % arms.get(tok) if tok in arms else "has no arm")
+                if tok not in lits and tok not in direct:
                     why += "; the grammar never feeds it"
                 res.add(Finding("R08-5", "%s|%s" % (enum_name, tok), "token %r of %s %s, XPath 1.0 pairs it with %s" % (tok, enum_name, why, variant),
                                 f["file"], f["line"], {}))
-        extra = sorted((set(arms) | lits) - set(table))
+        extra = sorted((set(arms) | lits | set(direct)) - set(table))
         res.oblige(1, not extra)
         if extra:
             res.add(Finding("R08-5", "%s|extra" % enum_name, "%s handles tokens %s that the production does not have" % (enum_name, extra), f["file"], f["line"], {}))
@@ -240,11 +241,19 @@ def r08_3(facts, res):
 def r08_4(facts, res):
     """[n] means position() = n: the Number arm of eval_predicate compares as f64, without casting the number to an integer."""
     st = res.rule("R08-4", instances=1)
-    f = facts.fn("xml_xpath::eval::eval_predicate")
-    arms = match_arms_on(f, "model::Value")
+    # the place is found by what it does: the evaluator function (not the function library) that reads the context position;
+    # there, the arm that binds a Value::Number (also nested: `Ok(Value::Number(v))`)
+    GETPOS = "xml_xpath::eval::model::Context::get_position"
+    fs = [x for x in facts.fns.values() if x["crate"] == "xml_xpath" and "body" in x and x["path"].startswith("xml_xpath::eval::")
+          and not x["path"].startswith(("xml_xpath::eval::func", "xml_xpath::eval::model")) and
+          any(tt.get("callee") and facts.callee_name(tt["callee"]) == GETPOS for _, tt in facts.mir_calls(x))]
+    if not fs:
+        raise BrokenCheck("R08-4: no evaluator function reads the context position (Context::get_position)")
+    f = fs[0]
+    arms = [arm for g in fs for n in walk(g["body"]) if n.get("k") == "Match" and n.get("src") == "Normal" for arm in n["arms"]]
     bad, good = [], False
     for arm in arms or []:
-        if "Number" in variants_of_pat(arm["pat"]):
+        if any(str(q.get("path", "")).endswith("model::Value::Number") for q in walk(arm["pat"])):
             for m in walk(arm["body"]):
                 if m.get("k") == "Cast" and m.get("from") == "f64" and m.get("ty") != "f64":
                     bad.append("casts the number from f64 to %s" % m.get("ty"))
